@@ -27,6 +27,7 @@ type Prog struct {
 	ByRel   map[string]*packages.Package
 	GOARCH  string
 	Sizes   types.Sizes
+	Renamed []string // "kind current -> reference" for identifiers canonicalised before analysis
 
 	ssaProg  *ssa.Program
 	ssaPkgs  map[string]*ssa.Package
@@ -56,9 +57,29 @@ func goEnv(goarch string) []string {
 	return env
 }
 
-// Load parses and type-checks the repository. overlay maps absolute file names to
-// replacement contents (used only by the self-validation corpus).
+// Load parses and type-checks the repository; when unexported functions, methods, fields or types
+// of the reference tree were merely RENAMED (canon.go), it loads once more with those identifiers
+// rewritten to their reference names, so that every rule sees the names it knows. overlay maps
+// absolute file names to replacement contents (used only by the self-validation corpus).
 func Load(repo, goarch string, overlay map[string][]byte) (*Prog, error) {
+	p, err := loadOnce(repo, goarch, overlay)
+	if err != nil || anchorRecord != nil {
+		return p, err
+	}
+	ov, renames := p.canonicalOverlay(overlay)
+	if len(renames) == 0 {
+		return p, nil
+	}
+	p2, err2 := loadOnce(repo, goarch, ov)
+	if err2 != nil {
+		// the reverse renaming did not type-check (name clash): analyse the tree as it is
+		return p, nil
+	}
+	p2.Renamed = renames
+	return p2, nil
+}
+
+func loadOnce(repo, goarch string, overlay map[string][]byte) (*Prog, error) {
 	repo, _ = filepath.Abs(repo)
 	fset := token.NewFileSet()
 	cfg := &packages.Config{
@@ -163,7 +184,7 @@ func (p *Prog) RelPkg(pkg *types.Package) string {
 // LookupFunc finds a package-level function ("name") or method ("Type.name") of package rel.
 func (p *Prog) LookupFunc(rel, name string) *types.Func {
 	f := p.lookupFuncByName(rel, name)
-	key := rel + " " + name
+	key := "F " + rel + " " + name
 	if anchorRecord != nil && f != nil {
 		anchorRecord[key] = sigKey(f)
 	}
@@ -203,7 +224,7 @@ func sigKey(f *types.Func) string {
 }
 
 func (p *Prog) lookupRenamed(rel, name string) *types.Func {
-	want, ok := anchorSigs[rel+" "+name]
+	want, ok := anchorSigs["F "+rel+" "+name]
 	if !ok {
 		return nil
 	}
@@ -214,8 +235,8 @@ func (p *Prog) lookupRenamed(rel, name string) *types.Func {
 	// names that are anchors themselves (and exist) are not candidates
 	taken := map[string]bool{}
 	for k := range anchorSigs {
-		if strings.HasPrefix(k, rel+" ") {
-			n := strings.TrimPrefix(k, rel+" ")
+		if strings.HasPrefix(k, "F "+rel+" ") {
+			n := strings.TrimPrefix(k, "F "+rel+" ")
 			if p.lookupFuncByName(rel, n) != nil {
 				taken[n] = true
 			}
@@ -487,8 +508,11 @@ func (p *Prog) resolveAliases() {
 		p.LookupFunc(a.rel, a.name)
 	}
 	for k := range anchorSigs {
-		i := strings.Index(k, " ")
-		rel, name := k[:i], k[i+1:]
+		parts := strings.SplitN(k, " ", 3)
+		if len(parts) != 3 || parts[0] != "F" {
+			continue
+		}
+		rel, name := parts[1], parts[2]
 		if p.lookupFuncByName(rel, name) != nil {
 			continue
 		}
